@@ -166,9 +166,11 @@ Lemma sstep_cr_free c h o : cr_free c = true -> op_cr_free o = true ->
   sstep true c h o = sstep false c h o /\ cr_free (fst (fst (sstep false c h o))) = true.
 Proof.
   intros C O. unfold sstep. destruct (s_closed h); [split; [reflexivity|exact C]|].
-  destruct o as [fs|k|ss|w off| |m size|]; cbn [op_cr_free] in O.
+  destruct o as [fs|k|k|ss|w off| |m size|]; cbn [op_cr_free] in O.
   - destruct (negb (s_rd h)); [split; [reflexivity|exact C]|].
     rewrite s_reads_cr_free by exact C. destruct (s_reads false c (s_pos h) fs []). split; [reflexivity|exact C].
+  - destruct (negb (s_rd h)); [split; [reflexivity|exact C]|].
+    rewrite s_lines_cr_free by exact C. destruct (s_lines false c (s_pos h) k []). split; [reflexivity|exact C].
   - destruct (negb (s_rd h)); [split; [reflexivity|exact C]|].
     rewrite s_lines_cr_free by exact C. destruct (s_lines false c (s_pos h) k []). split; [reflexivity|exact C].
   - destruct (negb (s_wr h)); [split; [reflexivity|exact C]|].
@@ -358,26 +360,32 @@ Proof.
 Qed.
 
 (* ---------- closed handles ---------- *)
+(* [rbuf h = []]: close gives the read-ahead up ([close_closes]); it is what makes a step of a
+   lines iterator obtained before the close raise too *)
 Lemma closed_handle_raises_lemma : forall disk h o,
-  i_closed h = true -> istep ch disk h o = (disk, h, RRaise).
-Proof. intros disk h o C. unfold istep. rewrite C. reflexivity. Qed.
+  i_closed h = true -> rbuf h = [] -> istep ch disk h o = (disk, h, RRaise).
+Proof. intros disk h o C E. unfold istep. rewrite C, E. destruct o; reflexivity. Qed.
 
 Lemma closed_run_raises : forall ops disk h,
-  i_closed h = true -> irun ch disk h ops = (disk, h, map (fun _ => RRaise) ops).
+  i_closed h = true -> rbuf h = [] -> irun ch disk h ops = (disk, h, map (fun _ => RRaise) ops).
 Proof.
-  induction ops as [|o ops IH]; intros disk h C; [reflexivity|].
-  cbn [irun map]. rewrite closed_handle_raises_lemma by exact C. rewrite IH by exact C. reflexivity.
+  induction ops as [|o ops IH]; intros disk h C E; [reflexivity|].
+  cbn [irun map]. rewrite closed_handle_raises_lemma by assumption. rewrite IH by assumption. reflexivity.
 Qed.
 
 Lemma close_closes : forall disk h d' h' r,
-  i_closed h = false -> istep ch disk h OClose = (d', h', r) -> i_closed h' = true /\ r = RTrue.
+  Inv disk h -> i_closed h = false -> istep ch disk h OClose = (d', h', r) ->
+  i_closed h' = true /\ rbuf h' = [] /\ r = RTrue.
 Proof.
-  intros disk h d' h' r C E. unfold istep in E. rewrite C in E.
+  intros disk h d' h' r (_ & NR & _) C E. unfold istep in E. rewrite C in E.
   destruct (iflush disk (upd_closed h)) as [d1 h1] eqn:F. injection E as <- <- <-.
-  split; [|reflexivity]. unfold iflush in F. cbn [wb upd_closed] in F.
-  destruct (wb h) as [[buf cap]|].
-  - destruct (fd_write _ _ _ _) in F. injection F as <- <-. unfold abandon. cbn. destruct (i_rd h); reflexivity.
-  - injection F as <- <-. unfold abandon. cbn. destruct (i_rd h); reflexivity.
+  assert (G : i_closed h1 = true /\ rbuf h1 = rbuf h /\ i_rd h1 = i_rd h).
+  { unfold iflush in F. cbn [wb upd_closed] in F. destruct (wb h) as [[buf cap]|].
+    - destruct (fd_write _ _ _ _) in F. injection F as <- <-. repeat split.
+    - injection F as <- <-. repeat split. }
+  destruct G as (G1 & G2 & G3). unfold abandon. destruct (i_rd h1) eqn:RD.
+  - cbn. rewrite G1. repeat split.
+  - rewrite G1, G2. rewrite (NR (eq_sym G3)). repeat split.
 Qed.
 
 End Thm.
